@@ -26,6 +26,8 @@ def load_rules(path):
             r['alias']=al[0]['type']['qualType'] if al else None
             # other member aliases of the record (helper names the `type` alias may refer to)
             r['aliases']={c['name']:c['type']['qualType'] for c in rec.get('inner',[]) if c.get('kind')=='TypeAliasDecl' and c.get('name')!='type'}
+            # static constexpr data members with an initialiser (helper constants the aliases may refer to)
+            r['members']={c['name']:c for c in rec.get('inner',[]) if c.get('kind')=='VarDecl' and c.get('name') and any(x.get('kind','').endswith(('Expr','Operator','Literal','Cleanups')) for x in c.get('inner',[]))}
             rules.setdefault(name,[]).append(r)
             if k=='ClassTemplateDecl':
                 for c in inner:
@@ -225,7 +227,7 @@ class Ev:
         k=node[0]
         if k=='num': return (BitVecVal(node[1],32),32,True) if node[1] < 2**31 else (BitVecVal(node[1],64),64,False)
         if k=='name':
-            v=env[node[1]]
+            v=s.lookup(node[1],env)
             return v if isinstance(v,(tuple,BoolRef)) else (v,64,False)
         if k=='not': return Not(s.truth(s.scalar(node[1],env)))
         if k=='bin': return s.binop(node[1],s.scalar(node[2],env),s.scalar(node[3],env))
@@ -269,9 +271,29 @@ class Ev:
             b,sg=s.ty(vt['type']); return s.conv(r,b,sg)
         if k=='call':
             fn=s.rules['__functions__'].get(s.norm(node[1]))
+            if fn is None and s.norm(node[1]) in('min','max'): return s.minmax(s.norm(node[1]),[s.scalar(a,env) for a in node[2]])
             if fn is None: raise Exception('call to unknown function '+node[1])
             return s.call(fn,[s.scalar(a,env) for a in node[2]])
         raise Exception(f'scalar {node}')
+    def lookup(s,name,env):
+        """template parameter, or a static constexpr data member of the specialisation being applied (evaluated on demand)"""
+        if name in env: return env[name]
+        m=(env.get('@members') or {}).get(name.split('::')[-1])
+        if m is None: raise KeyError(name)
+        init=[x for x in m['inner'] if x.get('kind','').endswith(('Expr','Operator','Literal','Cleanups'))][0]
+        v=s.jexpr(init,env)
+        q=m['type']['qualType'].replace('const ','').strip()
+        if q=='bool': return s.truth(v)
+        b,sg=s.ty(q); return s.conv(v,b,sg)
+    def minmax(s,which,vals):
+        """std::min / std::max over typed scalars (first of equals, as the standard says; the values are what matters here)"""
+        if not vals: raise Exception('std::'+which+' of nothing')
+        r=vals[0]
+        for v in vals[1:]:
+            a,b=s.common(r,v)
+            lt=(a[0]<b[0]) if a[2] else ULT(a[0],b[0])
+            r=(If(lt,a[0],b[0]),a[1],a[2]) if which=='min' else (If(lt,b[0],a[0]),a[1],a[2])
+        return r
     def packs_in(s,node,env,acc=None):
         acc=set() if acc is None else acc
         if node[0]=='name':
@@ -328,7 +350,10 @@ class Ev:
         if k=='IntegerLiteral':
             b,sg=s.ty(n['type']['qualType']); return (BitVecVal(int(n['value']),b),b,sg)
         if k=='CXXBoolLiteralExpr': return BoolVal(bool(n.get('value')))
-        if k=='DeclRefExpr': return env[n['referencedDecl']['name']]
+        if k=='DeclRefExpr':
+            v=s.lookup(n['referencedDecl']['name'],env)
+            return v if isinstance(v,(tuple,BoolRef)) else (v,64,False)
+        if k in('MaterializeTemporaryExpr','CXXBindTemporaryExpr'): return s.jexpr(n['inner'][0],env)
         if k in('ImplicitCastExpr','CXXStaticCastExpr','CStyleCastExpr','CXXFunctionalCastExpr'):
             v=s.jexpr(n['inner'][0],env); ck=n.get('castKind')
             if ck in('LValueToRValue','NoOp','FunctionToPointerDecay'): return v
@@ -352,7 +377,15 @@ class Ev:
         if k=='CallExpr':
             callee=n['inner'][0]
             while callee.get('kind') in('ImplicitCastExpr','ParenExpr'): callee=callee['inner'][0]
-            fn=s.rules['__functions__'].get(callee['referencedDecl']['name'])
+            cname=callee['referencedDecl']['name']
+            fn=s.rules['__functions__'].get(cname)
+            if fn is None and cname in('min','max'):
+                args=[]
+                for a in n['inner'][1:]:
+                    while a.get('kind') in('CXXStdInitializerListExpr','MaterializeTemporaryExpr','CXXBindTemporaryExpr','ExprWithCleanups'): a=a['inner'][0]
+                    if a.get('kind')=='InitListExpr': args+=[s.jexpr(x,env) for x in a.get('inner',[])]
+                    else: args.append(s.jexpr(a,env))
+                return s.minmax(cname,args)
             if fn is None: raise Exception('call to unknown function')
             return s.call(fn,[s.jexpr(a,env) for a in n['inner'][1:]])
         raise Exception('unsupported expression '+str(k))
@@ -404,6 +437,7 @@ class Ev:
         cands.sort(key=lambda re: -sum(1 for _,p in re[0]['params'] if not p))
         r,env=cands[0]
         if r.get('aliases'): env=dict(env); env['@aliases']=r['aliases']
+        if r.get('members'): env=dict(env); env['@members']=r['members']
         if r['alias']: return s.ev(parse(r['alias']),env,pc)
         return s.ev(parse(r['bases'][0]),env,pc)
 
